@@ -9,7 +9,7 @@ import (
 // minimise shrinks a failing case while a fresh-process run still fails with the same clause.
 // It works on the JSON structure: fault-plan entries, script steps, clients, operations,
 // documents, schedule and knobs.
-func minimise(bin, prop string, caseJSON []byte, clause string) []byte {
+func minimise(bin *build, prop string, caseJSON []byte, clause string) []byte {
 	var c map[string]any
 	if err := decodeJSON(caseJSON, &c); err != nil {
 		return nil
